@@ -150,6 +150,8 @@ class Check:
 
     @staticmethod
     def _parse_assumptions(out):
+        """Print Assumptions output: 'Closed under the global context' or 'Axioms:' followed by 'name : type' entries;
+        an entry's type may start on the next (indented) line, so a name is any non-indented token line."""
         blocks, cur = [], None
         for line in out.split("\n"):
             if line.startswith("Closed under the global context"):
@@ -161,9 +163,11 @@ class Check:
                     blocks.append(cur)
                 cur = []
             elif cur is not None:
-                m = re.match(r"^([A-Za-z_][\w.']*)\s*:", line)
-                if m:
+                m = re.match(r"^([A-Za-z_][\w.']*)\s*(:.*)?$", line)
+                if m and not line.startswith(" "):
                     cur.append(m.group(1))
+                elif line and not line.startswith(" ") and not line.startswith(":"):
+                    blocks.append(cur); cur = None
         if cur is not None:
             blocks.append(cur)
         return blocks
